@@ -18,7 +18,9 @@
    bitmap is a parameter) and the CIDR trie behind ipSet[i].HasPrefix (C12: containment is computed on the 128-bit
    values); cache expiry / TTL / LRU (C08: entries are live); upstream initialisation errors; outbound parameters on
    DNS rule targets; in daedns: the wire exchange with the chosen resolver, the per-family (A/AAAA) aggregation of
-   LookupIPAddr and its fall-through when the chosen resolver returns nothing, regexp2 (oracle: m_hits). *)
+   LookupIPAddr and its fall-through when the chosen resolver returns nothing, regexp2 (oracle: m_hits), the coalescing
+   of identical concurrent lookups in lookupTypeDedup (a lookup that finds an identical one in flight, or just finished and
+   not yet unregistered, shares its result and sends no question of its own; the harness looks up on an idle router). *)
 From Coq Require Import List NArith Bool String Ascii.
 From Dae Require Import C07_Spec.
 From Dae.gen Require Import C07_Consts.
